@@ -46,6 +46,14 @@ pub const CONTROL_TEXTS: [&str; 8] = [
 /// Paragraph kinds for the ordering clause of the control wrapper: two source paragraphs, two binary paragraphs of the
 /// SAME name (a tie), another binary, a paragraph of neither kind.
 const CONTROL_PARAS: [&str; 6] = ["Source: alpha\nBuild-Depends: b, a\n", "Source: zeta\n", "Package: a\nDepends: y\n", "Package: a\nDepends: x\n", "Package: b\n", "X-Other: 1\n"];
+/// further control files: Uploaders in the one-per-line layout with a comma behind the last one, with an empty item; an
+/// unterminated last relationship field; leading blank lines and two blank lines between paragraphs
+const CONTROL_EXTRA: [&str; 4] = [
+    "Source: s\nUploaders: A <a@b>,\n B <c@d>,\n\nPackage: p\n",
+    "Source: s\nUploaders: A <a@b>,, B <c@d>\n",
+    "Source: foo\nBuild-Depends: b,\n a",
+    "\n\nSource: s\n\n\nPackage: p\nDepends: y, x",
+];
 
 /// control text `i`: the fixed ones, then every ordered selection of 2 and of 3 distinct paragraph kinds
 pub fn control_text(i: usize) -> Option<String> {
@@ -53,6 +61,10 @@ pub fn control_text(i: usize) -> Option<String> {
         return Some(CONTROL_TEXTS[i].to_string());
     }
     let mut j = i - CONTROL_TEXTS.len();
+    if j < CONTROL_EXTRA.len() {
+        return Some(CONTROL_EXTRA[j].to_string());
+    }
+    j -= CONTROL_EXTRA.len();
     let n = CONTROL_PARAS.len();
     if j < n * (n - 1) {
         let (a, b) = (j / (n - 1), j % (n - 1));
@@ -71,7 +83,7 @@ pub fn control_text(i: usize) -> Option<String> {
 }
 pub fn n_control_texts() -> usize {
     let n = CONTROL_PARAS.len();
-    CONTROL_TEXTS.len() + n * (n - 1) + n * (n - 1) * (n - 2)
+    CONTROL_TEXTS.len() + CONTROL_EXTRA.len() + n * (n - 1) + n * (n - 1) * (n - 2)
 }
 
 fn cfg_menus() -> Vec<usize> {
@@ -591,7 +603,7 @@ pub const EMPTIED: [(&str, usize); 6] = [("A: 1\n\nB: 2\n\nC: 3\n", 1), ("A: 1\n
 /// documents in which the sort keys TIE: identical paragraphs, paragraphs equal under the paragraph order but different
 /// otherwise (both input orders), a paragraph without the key field between two with it, repeated field names (equal under
 /// the by-name entry orders) with different values in both orders
-pub const TIE_TEXTS: [&str; 8] = [
+pub const TIE_TEXTS: [&str; 16] = [
     "A: 1\n\nA: 1\n",
     "A: 1\nB: x\n\nA: 1\nB: y\n",
     "A: 1\nB: y\n\nA: 1\nB: x\n",
@@ -600,6 +612,16 @@ pub const TIE_TEXTS: [&str; 8] = [
     "A: 2\nA: 1\n",
     "B: 1\nA: 1\nB: 0\n",
     "A: 1\nA: 1\n\nA: 1\n",
+    // three distinct names in every order (an entry comparator then has more than one inversion to undo)
+    "A: 1\nB: 2\nC: 3\n",
+    "A: 1\nC: 3\nB: 2\n",
+    "B: 2\nA: 1\nC: 3\n",
+    "B: 2\nC: 3\nA: 1\n",
+    "C: 3\nA: 1\nB: 2\n",
+    "C: 3\nB: 2\nA: 1\n",
+    // three paragraphs in two orders
+    "A: 3\n\nA: 1\n\nA: 2\n",
+    "A: 2\n\nA: 3\n\nA: 1\n",
 ];
 pub fn n_fixed_texts() -> usize {
     NO_PARA_TEXTS.len() + EMPTIED.len() + TIE_TEXTS.len()
@@ -957,7 +979,7 @@ impl Prop for C07 {
         "exploration"
     }
     fn rule(&self, _t: Tier) -> String {
-        "documents: every layout vector with <= k deviations on 5 skeletons (values made unique per field; the final newline is a free dimension on top of the k deviations), crossed with the FULL product of 864 settings (minus the 240 that combine a line-restructuring formatter with a value-dependent comparator) (4 indentations x immediate_empty_line x 3 one-liner limits x 3 paragraph orders x 3 entry orders x 4 formatters); each case runs Deb822::wrap_and_sort (with Paragraph::wrap_and_sort plugged in), re-reads the result, applies it a second time and cross-checks the Paragraph- and Entry-level entry points; control wrappers: 8 control files x 24 settings x {Control, Source/Binary}, and every ordered selection of 2 and 3 paragraphs out of 6 kinds (two source paragraphs, two binaries of the same name, another binary, a paragraph of neither kind: 150 files) x both empty-first-line settings; fixed documents x all settings: 8 without paragraphs / with comment lines inside values, 6 live ones with a field-less paragraph, 8 whose sort keys tie (identical paragraphs, equal keys with different content in both orders, repeated field names); non-trivial = case whose document has a deviation or whose setting differs from the default".into()
+        "documents: every layout vector with <= k deviations on 5 skeletons (values made unique per field; the final newline is a free dimension on top of the k deviations), crossed with the FULL product of 864 settings (minus the 240 that combine a line-restructuring formatter with a value-dependent comparator) (4 indentations x immediate_empty_line x 3 one-liner limits x 3 paragraph orders x 3 entry orders x 4 formatters); each case runs Deb822::wrap_and_sort (with Paragraph::wrap_and_sort plugged in), re-reads the result, applies it a second time and cross-checks the Paragraph- and Entry-level entry points; control wrappers: 12 control files (incl. Uploaders with a trailing comma / an empty item, an unterminated last field, extra blank lines) x 24 settings x {Control, Source/Binary}, and every ordered selection of 2 and 3 paragraphs out of 6 kinds (two source paragraphs, two binaries of the same name, another binary, a paragraph of neither kind: 150 files) x both empty-first-line settings; fixed documents x all settings: 8 without paragraphs / with comment lines inside values, 6 live ones with a field-less paragraph, 16 whose sort keys tie or that hold three names / paragraphs in every order; non-trivial = case whose document has a deviation or whose setting differs from the default".into()
     }
     fn bounds(&self, t: Tier) -> Value {
         let sk: Vec<Value> = c07_skels().iter().map(|s| json!({"skeleton": s, "k": c07_k(t, *s), "documents": kdev_count(&menus(*s), c07_k(t, *s))})).collect();
@@ -977,7 +999,7 @@ impl Prop for C07 {
         if shard == shards.len() {
             for text in 0..n_control_texts() {
                 // (the generated ordering texts: both empty-first-line settings, one indentation and width)
-                let dims: [usize; 3] = if text < CONTROL_TEXTS.len() { [4, 2, 3] } else { [1, 2, 1] };
+                let dims: [usize; 3] = if text < CONTROL_TEXTS.len() + CONTROL_EXTRA.len() { [4, 2, 3] } else { [1, 2, 1] };
                 product(&dims, &mut |v| {
                     for via in 0..2 {
                         f(&C07Case::Control { text, cfg: Cfg { indent: v[0], iel: v[1] == 1, oneliner: v[2], porder: 0, eorder: 0, fmt: 0 }, via });
